@@ -149,7 +149,11 @@ pub fn child(case: &Case) -> Report {
                 // internal restarts) when mounts/renames happen anywhere on the
                 // system, e.g. in the other lanes. A disagreement must therefore
                 // be reproducible on this unmodified tree before it counts.
-                if agree(&lib, &kernel) || rounds >= 6 || matches!(lib, Out::Panicked(_)) {
+                // EAGAIN (or the safety violation resolve() makes of 16 of
+                // them) on an unmodified tree is purely environmental: repeat.
+                let eagain = matches!(&lib, Out::Err { errno: Some(e), .. } if *e == libc::EAGAIN) || (case.kcfg.has_openat2() && matches!(&lib, Out::Err { kind, .. } if kind == "safety"));
+                let limit = if eagain { 80 } else { 6 };
+                if agree(&lib, &kernel) || rounds >= limit || matches!(lib, Out::Panicked(_)) {
                     break (lib, kernel, call);
                 }
                 transient += 1;
@@ -273,6 +277,12 @@ pub fn judge(case: &Case, rep: &Report, stats: &mut Stats) -> Result<(), Fail> {
             stats.count("transient_disagreements_resolved_by_rerun", 1);
         }
         if !agree(&r.lib, &r.kernel) {
+            let eagain = matches!(&r.lib, Out::Err { errno: Some(e), .. } if *e == libc::EAGAIN) || (case.kcfg.has_openat2() && matches!(&r.lib, Out::Err { kind, .. } if kind == "safety"));
+            if eagain {
+                // survived 80 repetitions: the system is too busy with mounts/renames
+                stats.count("discarded_persistent_EAGAIN", 1);
+                continue;
+            }
             // carve-out: the emulated link budget is 128, the kernel's is 40;
             // the property compares lookups that need at most 40 traversals.
             if !case.kcfg.has_openat2() && r.kernel == KOut::Err(libc::ELOOP) && r.n_readlinks > 40 {
